@@ -227,6 +227,29 @@ SegSegOK(a, b, c, d, t, ps, sc) ==
 \* @type: (Int, Int, Int, Seq(Int)) => Bool;
 DistExactOK(got, tn, td, r) == WithinExact(got, 1, tn, td, r)
 
+\* The same minima WITHOUT a CHOOSE.  Apalache treats CHOOSE as a fresh non-deterministic pick at every occurrence,
+\* and operator arguments are substituted by name: when two candidates tie with different representations
+\* (parallel segments), r[1] and r[2] of "the" minimum could come from different picks.  The big-integer tier therefore
+\* uses the candidate SET and binds the minimum once with an existential quantifier.
+\* @type: (Seq(Int), Seq(Int), Seq(Int), Seq(Int)) => Set(Seq(Int));
+SqDistSegSeg2Set(a, b, c, d) ==
+  IF SegsMeet(a, b, c, d) THEN {<<0, 1>>}
+  ELSE {SqDistPtSeg2(a, c, d), SqDistPtSeg2(b, c, d), SqDistPtSeg2(c, a, b), SqDistPtSeg2(d, a, b)}
+\* @type: (Seq(Int), Seq(Int), Seq(Int), Seq(Int)) => Set(Seq(Int));
+SqDistSegSeg3Set(a, b, c, d) ==
+  LET u == Sub3(b, a)  v == Sub3(d, c)  w == Sub3(a, c)
+      A == Dot3(u, u)  B == Dot3(u, v)  C == Dot3(v, v)  D == Dot3(u, w)  E == Dot3(v, w)
+      den == A * C - B * B
+      edges == {SqDistPtSeg3(a, c, d), SqDistPtSeg3(b, c, d), SqDistPtSeg3(c, a, b), SqDistPtSeg3(d, a, b)}
+      sn == B * E - C * D   tn == A * E - B * D
+      inside == den > 0 /\ 0 <= sn /\ sn <= den /\ 0 <= tn /\ tn <= den
+      nx == u[2] * v[3] - u[3] * v[2]  ny == u[3] * v[1] - u[1] * v[3]  nz == u[1] * v[2] - u[2] * v[1]
+      T == w[1] * nx + w[2] * ny + w[3] * nz
+  IN IF inside THEN edges \cup {<<T * T, den>>} ELSE edges
+\* got is within tn/td of the square root of the minimum of the candidate set
+\* @type: (Int, Int, Int, Set(Seq(Int))) => Bool;
+DistExactOKSet(got, tn, td, S) == \E r \in S : (\A q \in S : RLe(r, q)) /\ WithinExact(got, 1, tn, td, r)
+
 \* ------------------------------------------------------------------ C20: Douglas-Peucker
 \* d <= threshold^2 = T2n/T2d
 \* @type: (Seq(Int), Int, Int) => Bool;
